@@ -19,7 +19,7 @@ from mc.refs import oalfam as F
 from mc.props import c04
 
 NEEDS_BRIDGEPOINT = True
-BUDGET_S = {'quick': 300, 'thorough': 2400}
+BUDGET_S = {'quick': 3600, 'thorough': 14400}
 ASSUMPTIONS = [
     'fields that carry the keyword text itself (operator, cardinality, boolean literal, self as instance name) are compared '
     'case-insensitively; the normalising accessor .many exactly',
